@@ -48,6 +48,14 @@ func (w *World) MakeBacking(start, n int) reflect.Value {
 	return b
 }
 
+func (w *World) MakeBackingOf(d *vals.DT, start, n int) reflect.Value {
+	b := d.MakeSlice(n)
+	for i := 0; i < n; i++ {
+		b.Index(i).Set(reflect.ValueOf(w.Cfg.Pal.Cell(d, start+i)))
+	}
+	return b
+}
+
 func (w *World) nextStart() int {
 	// cells are numbered in allocation order; the model's allocation table of the final state tells where
 	// the allocation made by this step starts
@@ -74,7 +82,7 @@ func opNew(w *World, st *Step) execResult {
 	ctor := decodeStr(a[1])
 	n := prod(shape)
 	start := w.nextStart()
-	b := w.MakeBacking(start, n)
+	b := w.MakeBackingOf(w.cellDT(start), start, n)
 	opts := []tensor.ConsOpt{tensor.WithShape(shape...)}
 	switch ctor {
 	case "C":
